@@ -94,6 +94,18 @@ CHECKS = {
             'array alphabet; capped cases (doubles / arrays needing more than 64 bits): word<=64, error<LSB, inaccuracy iff inexact.',
             'Trusted: mc/props/c06.py:infer (search over Python ints). Minimality is only demanded inside the stated dyadic domain.',
             'DESIGN.md section 4 C06'),
+    'C12': (TECH_E1,
+            'Complete enumeration of the stated domain: every (signed, n_word, n_frac -8..n_word+8) for n_word in 1..70 + {100,128,200,256} '
+            '(thorough: 1..256, 74k formats): dtype attribute, get_dtype(None/fxp/Q) under both configured notations and after switching the '
+            'notation on a live object, construction and resize from the fxp spelling (also upper case), from Q/q/S/s/UQ/uq/U/u/Uq/QU spellings '
+            'when m>=0, the complex suffix (n_word<=52), and fxp_sum(dtype=) as the public route into utils.get_sizes_from_dtype.',
+            'Trusted: the two spelling functions in mc/props/c12.py.', 'DESIGN.md section 4 C12'),
+    'C13': (TECH_E1,
+            "No explored bitwise operation differs from the bitwise combination of the n_word-bit two's-complement patterns in x's format: "
+            'n_word<=5 (thorough 6): every x code (array and scalars) x every y code of an Fxp of either signedness x n_frac(x) 0..n_word x '
+            '{&,|,^}, int masks on either side, ~ with ~~x==x and ~x==-x-LSB, De Morgan on all code pairs; boundary/walking-bit/seed codes at '
+            '16,31,32,33,63,64,65,100,128 bits; every ordered pair of different word lengths 1..8 must raise for &, |, ^ separately.',
+            'Trusted: Python integer bit operations. array op array is not claimed and not judged.', 'DESIGN.md section 4 C13'),
 }
 
 NOT_YET = {}
